@@ -24,6 +24,14 @@ impl<K: KeyView, V> HashMap<K, V> {
     pub fn get(&self, k: &K) -> (r: Option<&V>)
         ensures match r { Some(v) => self@.dom().contains(k.kv()) && *v == self@[k.kv()], None => !self@.dom().contains(k.kv()) }
     { unimplemented!() }
+    /// consuming iteration `for (k, v) in map` (R10): the entries in an arbitrary order, one per key
+    #[verifier::external_body]
+    pub fn into_entries_(self) -> (r: Vec<(K, V)>)
+        ensures
+            forall|i: int, j: int| 0 <= i < j < r@.len() ==> (#[trigger] r@[i]).0.kv() != (#[trigger] r@[j]).0.kv(),
+            forall|i: int| 0 <= i < r@.len() ==> self@.dom().contains((#[trigger] r@[i]).0.kv()) && self@[r@[i].0.kv()] == r@[i].1,
+            forall|k: K::KV| self@.dom().contains(k) ==> exists|i: int| 0 <= i < r@.len() && (#[trigger] r@[i]).0.kv() == k,
+    { unimplemented!() }
     /// `map[&k]` (R10: `X[&E]` -> `*X.index_(&E)`): panics (aborts) when the key is absent
     #[verifier::external_body]
     pub fn index_(&self, k: &K) -> (r: &V) ensures self@.dom().contains(k.kv()), *r == self@[k.kv()] { unimplemented!() }
